@@ -73,6 +73,8 @@ CHECKS = {
     "C18": simbus("C18", RULE % "C18 (name / unicast / broadcast / reply traffic with 0-3 connections becoming monitors at arbitrary points — while owning or queued for names, with calls outstanding — with empty or selective filters, privileged and unprivileged, under allow-all, requested-replies-only and message-refusing policies)",
                   probes=["became_monitor", "became_monitor_while_owning", "became_monitor_while_queued", "became_monitor_with_calls_outstanding", "become_monitor_denied",
                           "monitor_captured_bus_message", "monitor_captured_client_message", "bus_message_refused_by_receive_policy", "unicast_refused", "dest_missing"], safety_prop="C10"),
+    "C15": simbus("C15", RULE % "C15 (method calls and signals carrying 0 to beyond-the-maximum descriptors, header count smaller / equal / larger than attached, descriptors riding on the first or a later byte, senders and recipients with and without negotiated descriptor passing, policies refusing by interface or descriptor count, missing destinations, the bus itself as destination, closes of sender or recipient right behind a message, stalled recipients, small per-message and incoming limits, pending_fd_timeout by clock)",
+                  probes=["fd_message_sent", "fd_message_received", "fds_without_negotiation", "fewer_fds_than_announced", "more_fds_than_allowed", "surplus_fds_sent", "pending_fd_timeout_fired", "unicast_refused", "dest_missing"], safety_prop="C15"),
     "C14": dict(simbus("C14", "for each sampled (history, operation) pair generated from mix(VERIF_SEED, i): one fault-free execution counts the allocations n the bus makes while processing the "
                   "operation, then the whole plan is re-executed n times with allocation k = 0..n-1 of that operation failing (exhaustive in k, sampled in history and operation); an "
                   "evaluation is one (history, operation, k) execution; distinct = distinct trace hash; non-trivial = the injected failure fired and the outcome was compared with both admissible worlds",
@@ -183,6 +185,16 @@ MANIFEST_TEXT = {
                     "scheduled actor. Thread-mode oracles add: no deadlock once the peer has closed and no timeout is pending, and no thread asleep in poll inside "
                     "dbus_pending_call_block() for a call whose reply the library has already read. One listed known finding (calls outstanding at disconnect are dropped rather than "
                     "completed) is recognised by its exact condition inside the oracle. Sampling: evidence, not proof."),
+    "C15": _mt("Seeded search over histories of descriptor-carrying traffic through the real daemon: method calls and signals with 0 to beyond-the-maximum descriptors (distinct anonymous "
+               "files), header count smaller / equal / larger than attached, descriptors riding on the first or a later byte, senders and recipients with and without negotiated passing, "
+               "policies refusing by interface or descriptor count, missing destinations, closes of sender or recipient right behind a message, stalled recipients, small per-message and "
+               "incoming limits, under chunking / short I/O / EINTR / truncated control data (CTRUNC) faults. Oracle: the bus model predicts delivery (never to a connection that did not "
+               "negotiate; NotSupported / AccessDenied / ServiceUnknown otherwise); each delivered message carries exactly the announced number of descriptors and each is the same open "
+               "file (st_dev, st_ino) the sender attached in that position; a sender announcing more than it attached, exceeding the per-message maximum or announcing descriptors "
+               "without negotiation is disconnected and nothing of the message is processed; a sender attaching more than announced is disconnected within pending_fd_timeout of "
+               "virtual time once left alone (bounded liveness); the simulated kernel's ledger of every descriptor number installed into the daemon shows each closed exactly once "
+               "(no leak after the connections are gone and the bus is shut down, no double close), and no descriptor reaches a client without a message announcing it.",
+               "DESIGN.md section 4 C15", "deterministic simulation, seeded history and fault search, model-based oracle plus descriptor ledger in the simulated kernel"),
     "C20": _mt("Seeded search over histories: the application of a real DBusConnection registers, registers as fallback and unregisters handlers on generated path sets (shared prefixes, "
                "adjacent sibling names, the root) while a scripted peer sends method calls, signals, Introspect and Peer.Ping to paths inside, beside and below them through the simulated "
                "socket (short reads / writes, EINTR); handlers decline, handle, stay silent, ask for memory once, unregister themselves or the handler that would be offered next, or "
@@ -221,6 +233,6 @@ NOT_APPLICABLE = [
 ]
 
 # properties whose check is planned but not finished: not claimed, and listed in not_applicable with that reason
-NOT_CLAIMED_YET = ["C15", "C19"]
+NOT_CLAIMED_YET = ["C19"]
 for _p in NOT_CLAIMED_YET:
     NOT_APPLICABLE.append({"property_id": _p, "reason": "not claimed yet: the simulation check for this property is designed (DESIGN.md section 4) but not finished; it is applicable to the technique and will be claimed when its check passes the determinism and sensitivity gates"})
